@@ -28,7 +28,7 @@ FAULT_KINDS = ["disk_write", "disk_remove", "disk_mkdir_over", "disk_nonutf8", "
                "proto_unknown_request", "proto_request_closed_doc", "proto_ranged_change", "burst"]
 PROBES = ["parse_error_then_valid", "valid_then_parse_error", "close_then_reopen", "duplicate_open", "change_never_opened", "request_closed_document",
           "position_beyond_last_line", "non_ascii_line", "crlf_text", "burst_ge_8", "disk_fault_then_close", "strict_final_compared",
-          "fmt_oracle_rejects", "fmt_oracle_accepts", "build_oracle_succeeds", "overlay_episode_closed", "final_probes_compared", "definition_answered", "hover_answered", "semtok_nonempty",
+          "fmt_oracle_rejects", "fmt_oracle_accepts", "build_oracle_succeeds", "overlay_episode_closed", "final_probes_compared", "workspace_root_via_symlink", "identical_text_resent", "library_tabs_restored", "definition_answered", "hover_answered", "semtok_nonempty",
           "wssym_nonempty", "completion_nonempty", "non_file_uri"]
 REQS = ["hover", "definition", "completion", "semtok", "wssym"]
 
@@ -103,14 +103,37 @@ def generate(rng, tier, idx):
     last_text = {}  # doc index -> last text the client sent (for position sampling on closed docs)
     lib_open = set()
     fav_req = rng.sample(REQS, rng.between(1, 4))
+    if mode["strict"] and ws and rng.chance(25):
+        # an editor restoring its tabs: workspace libraries are opened with exactly their on-disk text, in some order, and some are closed
+        # again.  Nothing was edited, so nothing may differ from a fresh server afterwards.
+        order = rng.shuffle(list(range(len(ws))))[:rng.between(1, len(ws))]
+        for j in order:
+            session.append({"m": "open_lib", "lib": j, "text": ws[j]["text"], "unsaved": False})
+        for j in order:
+            if rng.chance(50):
+                session.append({"m": "close_lib", "lib": j})
     if mode["strict"] and ws and rng.chance(35):
-        # an "overlay episode" that is over before anything else happens: a library is opened with unsaved text, poked at, and closed
-        # again without touching the disk.  didClose re-reads the file, so afterwards the server must be indistinguishable from a fresh one.
+        # an "overlay episode" that is over before the documents get their final texts: a library is opened with unsaved text, poked at -
+        # documents may be opened and analysed against it meanwhile - and closed again without touching the disk.  didClose re-reads the
+        # file; every document touched during the episode is sent again afterwards (often with byte-identical text), so at the end the
+        # server must be indistinguishable from a fresh one.
         j = rng.below(len(ws))
         session.append({"m": "open_lib", "lib": j, "text": gen_ucg.mutate(rng, ws[j]["text"]), "unsaved": True, "episode": True})
         cur = session[-1]["text"]
-        for _ in range(rng.between(0, 3)):
-            if rng.chance(40):
+        during = []
+        for _ in range(rng.between(0, 4)):
+            if rng.chance(35):
+                i = rng.below(ndocs)
+                cls, text = gen_ucg.gen_text(rng, imports_for(docs[i]), True, exports_for(docs[i]))
+                if i in state:
+                    session.append({"m": "change", "doc": i, "texts": [text], "cls": cls})
+                else:
+                    session.append({"m": "open", "doc": i, "text": text, "cls": cls, "dup": False})
+                state[i] = text
+                last_text[i] = text
+                if i not in during:
+                    during.append(i)
+            elif rng.chance(40):
                 cur = gen_ucg.mutate(rng, cur) if rng.chance(60) else gen_ucg.gen_text(rng, ())[1]
                 session.append({"m": "change_lib", "lib": j, "text": cur})
             else:
@@ -121,6 +144,15 @@ def generate(rng, tier, idx):
                     pc, line, ch = gen_ucg.sample_position(rng, cur)
                     session.append({"m": kind, "lib": j, "line": line, "ch": ch, "pc": pc})
         session.append({"m": "close_lib", "lib": j})
+        for i in during:
+            # the same bytes again (an editor re-sending the buffer) or a new text
+            if rng.chance(65):
+                session.append({"m": "change", "doc": i, "texts": [state[i]], "cls": "identical_resend"})
+            else:
+                cls, text = gen_ucg.gen_text(rng, imports_for(docs[i]), True, exports_for(docs[i]))
+                session.append({"m": "change", "doc": i, "texts": [text], "cls": cls})
+                state[i] = text
+                last_text[i] = text
     for step in range(nmsg):
         opened = sorted(state)
         choices = [("open", 5 if len(opened) < ndocs else 1), ("change", 8 if opened else 0), ("close", 2 if opened else 0),
@@ -233,7 +265,9 @@ def generate(rng, tier, idx):
                 final_probes.append({"doc": i, "m": kind, "line": line, "ch": ch, "pc": pc})
             final_probes.append({"doc": i, "m": "semtok"})
     return {"workspace": ws, "docs": docs, "mode": mode, "session": session, "nested": nested, "root_uri": not (mode["protocol"] and rng.chance(10)),
-            "final_probes": final_probes}
+            "final_probes": final_probes,
+            # the editor reaches the project through a symbolic link: root URI and every document URI carry the link's path
+            "root_via_symlink": rng.chance(15)}
 
 
 def render(world):
@@ -348,6 +382,10 @@ def execute(world, sb, res):
     docs = world["docs"]
     root = "ws"
     sb.mkdir(root)
+    if world.get("root_via_symlink"):
+        sb.symlink("wslink", "ws")
+        root = "wslink"
+        res.probe("workspace_root_via_symlink")
     sb.mkdir("oracle")
     for w in world["workspace"]:
         sb.write(root + "/" + w["path"], w["text"])
@@ -528,6 +566,8 @@ def execute(world, sb, res):
                 if m == "open_lib" and msg.get("unsaved"):
                     had_fault = True
                     unsaved_libs.add(uri)
+                if m == "open_lib" and not msg.get("unsaved"):
+                    res.probe("library_tabs_restored")
                 keyseq.append([m, msg.get("cls", "lib")])
             elif m == "change_lib":
                 uri = lib_uris[msg["lib"]]
@@ -561,6 +601,8 @@ def execute(world, sb, res):
                     had_fault = True
                 else:
                     changes = [{"text": t} for t in msg["texts"]]
+                if msg.get("cls") == "identical_resend":
+                    res.probe("identical_text_resent")
                 srv.notify("textDocument/didChange", {"textDocument": {"uri": uri, "version": mi}, "contentChanges": changes})
                 if msg["texts"]:
                     buffers[uri] = msg["texts"][-1]
